@@ -59,6 +59,24 @@ def mutate_spec(rng, sp):
             nk = rng.choice(others)
             m = S.default_child(nk, rng, {})
             desc = "type %s -> %s" % (k, m["k"])
+        elif choice < 0.33:
+            # the same node behind a wrapper (Select forwards unknown attributes to its cut, so a duck-typed merge
+            # would find every attribute it looks for), or a wrapper removed
+            if k == "Select":
+                m = copy.deepcopy(n["cut"])
+                desc = "Select unwrapped"
+            else:
+                w = rng.choice(["Select", "Select", "Fraction", "Index", "Branch", "Label"])
+                inner = copy.deepcopy(n)
+                if w == "Select":
+                    m = {"k": "Select", "f": rng.choice(S.SELF), "qf": "lambda", "cut": inner}
+                elif w == "Fraction":
+                    m = {"k": "Fraction", "f": rng.choice(S.SELF), "qf": "lambda", "value": inner}
+                elif w == "Label":
+                    m = {"k": "Label", "pairs": {"a": inner}}
+                else:
+                    m = {"k": w, "values": [inner]}
+                desc = "wrapped in " + w
         elif k == "Bin":
             which = rng.choice(["num", "low", "high"])
             if which == "num":
@@ -166,7 +184,64 @@ def _sig_differs(a, b):
     return a != b
 
 
+def _built_case(i, rng, tier):
+    """Operands assembled by Stack.build / Fraction.build: a built Stack against a declared Stack with as many levels
+    (its thresholds are numbers, the built one's are NaN), against a built Stack with one more level, and built
+    aggregators whose members differ in one structural parameter.  Every such merge must raise."""
+    from .. import env
+
+    hg = env.hg()
+    label, sp = C.pick_spec(i // 20, rng, tier)
+    k = rng.randint(1, 3)
+    streams = [S.gen_stream(rng, sp, rng.choice([0, 2, 4])) for _ in range(k)]
+    pairs = []
+    declared = {"k": "Stack", "f": rng.choice(S.NUMF), "qf": "lambda", "edges": [float(j) for j in range(k - 1)], "value": sp, "nan": {"k": "Count"}}
+    pairs.append(("built Stack vs declared Stack with the same number of levels", lambda: C.built_state(sp, streams, "stack"), lambda: C.fill_all(S.build(declared), streams[0])))
+    pairs.append(("built Stack vs built Stack with one more level", lambda: C.built_state(sp, streams, "stack"), lambda: C.built_state(sp, streams + [streams[0]], "stack")))
+    sp2, desc, path = mutate_spec(rng, sp)
+    if sp2 is not None:
+        s2 = [S.gen_stream(rng, sp2, rng.choice([0, 2, 4])) for _ in range(k)]
+        for bk in ("stack", "fraction"):
+            pairs.append(("%s-built from members that differ (%s)" % (bk, desc), lambda bk=bk: C.built_state(sp, streams, bk), lambda bk=bk: C.built_state(sp2, s2, bk)))
+    failures = []
+    counters = {}
+    wit = {"tree": S.describe(sp), "spec": sp, "levels": k, "mutation": desc, "streams": [C.stream_json(st) for st in streams]}
+    for what, mka, mkb in pairs:
+        for op, order in (("+", "ab"), ("+", "ba"), ("+=", "ab"), ("+=", "ba")):
+            try:
+                a, b = mka(), mkb()
+            except Exception:  # noqa: BLE001
+                counters["built_pair_not_constructible"] = counters.get("built_pair_not_constructible", 0) + 1
+                break
+            x, y = (a, b) if order == "ab" else (b, a)
+            tx, ty = O.text(x), O.text(y)
+            try:
+                if op == "+":
+                    x + y
+                else:
+                    x += y
+                raised = False
+            except Exception:  # noqa: BLE001
+                raised = True
+            counters["built_merges_attempted"] = counters.get("built_merges_attempted", 0) + 1
+            counters["merges_attempted"] = counters.get("merges_attempted", 0) + 1
+            if not raised:
+                failures.append(C.fail(None, "merge of %s with %s (%s) returned instead of raising" % (what, op, order), op=op, order=order, **wit))
+            elif O.text(y) != ty or (op == "+" and O.text(x) != tx):
+                failures.append(C.fail(None, "rejected %s of %s (%s) changed an operand" % (op, what, order), op=op, order=order, **wit))
+    return {
+        "digest": C.digest(sp, k, desc, wit["streams"]),
+        "nontrivial": counters.get("built_merges_attempted", 0) > 0,
+        "failures": failures[:4],
+        "counters": counters,
+        "sets": {"mutation": {"built operands"}, "kinds": S.kinds_in(sp), "depth": {"0"}},
+        "sample": {"stratum": "built:" + label, "tree": S.describe(sp), "levels": k, "mutation": desc},
+    }
+
+
 def run_case(i, rng, tier):
+    if i % 20 == 19:
+        return _built_case(i, rng, tier)
     label, sp = C.pick_spec(i, rng, tier)
     sp2, desc, path = mutate_spec(rng, sp)
     if sp2 is None:
@@ -287,6 +362,8 @@ def conclusive(agg):
     out = []
     if not agg.counters.get("merges_attempted"):
         out.append("no merge attempted")
+    if not agg.counters.get("built_merges_attempted"):
+        out.append("no merge of Stack.build / Fraction.build operands attempted")
     for d in ("0", "1", "2"):
         if d not in agg.sets.get("depth", ()):
             out.append("no mutation at depth " + d)
